@@ -614,7 +614,16 @@ func runC06(c *Ctx) {
 			if !isIf {
 				continue
 			}
-			ex, isEx := iff.Cond.(*ssa.Extract)
+			// the test may be written either way round (`if ok`, `case !ok:` evaluated into a value)
+			cond, missEdge := iff.Cond, 1
+			for {
+				u, isU := cond.(*ssa.UnOp)
+				if !isU || u.Op != token.NOT {
+					break
+				}
+				cond, missEdge = u.X, 1-missEdge
+			}
+			ex, isEx := cond.(*ssa.Extract)
 			if !isEx || ex.Index != 1 {
 				continue
 			}
@@ -626,7 +635,7 @@ func runC06(c *Ctx) {
 				continue
 			}
 			// miss branch: straight back to the loop without send / write
-			miss := b.Succs[1]
+			miss := b.Succs[missEdge]
 			ok, d = true, ""
 			for _, ins := range miss.Instrs {
 				if s, isS := ins.(*ssa.Send); isS {
